@@ -239,7 +239,12 @@ def equiv_worker(job, ra, rb, fp_prefix, replay_kind, witnesses_fn=None, cells_f
                                              "numba": job.get("numba"), "pfmode": job.get("pfmode")}, **(replay_extra or {}))})
             for k, (sa, sb) in enumerate(zip(sysa, sysb)):
                 o, e = system_obligations(sa, sb, "system %d" % k, signs=rb.signs)
-                errs += e
+                for msg in e:
+                    # the two descriptions do not even have the same unknowns: a candidate like any other
+                    viol.append({"fingerprint": fp_prefix + "/system/unknowns", "detail": {"job": job["name"], "what": msg},
+                                 "replay": dict({"kind": replay_kind, "spec": spec, "specB": rb.spec, "values": {},
+                                                 "numba": job.get("numba"), "pfmode": job.get("pfmode"), "what": msg},
+                                                **(replay_extra or {}))})
                 obs += [("system", lab, a, b) for lab, a, b in o]
         cells = cells_fn(neta, netb) if cells_fn else default_cells(neta, netb, rb.row_map)
         obs += [("result", lab, a, b) for lab, a, b in cells]
